@@ -141,7 +141,8 @@ def c03_casesv(lines):
 ID = "C03"
 CFG = dict(
     propfile="Properties/C03.v",
-    coq_deps=["Lib/GoSlice", "Proofs/GoSliceP", "Model/LoggerChain", "Proofs/LoggerChainP", "Properties/C03", "Check/C03"],
+    coq_deps=["Lib/GoSlice", "Proofs/GoSliceP", "Model/LoggerChain", "Proofs/LoggerChainP", "Model/LoggerJson", "Proofs/LoggerJsonWithP",
+              "Model/LoggerText", "Proofs/LoggerTextP", "Proofs/LoggerTextWithP", "Properties/C03", "Check/C03"],
     ocaml="c03",
     race=True,
     casesv=c03_casesv,
